@@ -25,6 +25,8 @@ def run(rep):
     rep.guard(b10, rep, w)
     rep.guard(b11, rep, w)
     rep.guard(b12, rep, w)
+    rep.guard(b13, rep, w)
+    rep.guard(b14, rep, w)
     import c06
     rep.guard(c06.s12, rep, w, 'C04')   # the emitted Pop / CloseUpvalue sequence matches the stack from the top down
     import c04_narrow
@@ -38,6 +40,7 @@ def run(rep):
     import c03, c06
     rep.guard(c03.t4, rep, w)   # every encoding limit is refused on its exceeding side (a dropped limit error lets truncated operands through)
     rep.guard(c06.s2, rep, w)   # a captured local leaves the stack through CloseUpvalue on every exit path: the closure keeps naming that variable
+    rep.guard(c06.s10, rep, w, 'C04')  # a declared name that shadows the hidden `self` / `super` makes the code for them load the wrong slot (a module where a class is expected)
     import c09
     rep.guard(c09.f8, rep, w, 'C04')   # the stack height after Fiber.call / Fiber.yield must not depend on the argument's value
 
@@ -930,6 +933,111 @@ def b12(rep, w):
     r.check(bool(roots) and not bad, 'add_constant: result is len() or the map entry of the value',
             'add_constant can answer with an index obtained from %s: a value can be given the slot of a different constant (code that loads "its" constant loads the other one)'
             % sorted(set(bad)), f.loc())
+
+
+def b13(rep, w):
+    """the compiler counts stack slots per instruction, so what an instruction does to the height of the operand stack is a function of the
+    instruction (and, for a conditional jump, of whether it jumps) - not of which of the handler's internal paths served it. Decided for the
+    handlers whose stack operations are all of fixed size (pop / push / discard(constant)): all error-free paths that agree on 'the jump was
+    taken' have the same net effect. (A fast path that pops the end-of-iteration marker while the general path leaves it to a Pop the compiler
+    no longer emits shifts every later local of the function by one.)"""
+    import c07
+    r = rep.rule('B13', 'the net stack effect of a fixed-size opcode handler is the same on every error-free path (per jump outcome)', floor=15)
+    arms = c07.vm_arm_callees(w)
+    VMP = 'yarel::vm::Vm::'
+    handlers = set()
+    for op_, cs in arms.items():
+        for n in cs:
+            if n and n.startswith(VMP) and w.fns.get(n) is not None and (n.endswith('_impl') or n.rsplit('::', 1)[-1] in ('jump_if_stop_iter',)):
+                handlers.add(n)
+    err_fns = {VMP + 'try_handle_error', VMP + 'unwind_stack', VMP + 'runtime_error'}
+    for hn in sorted(handlers):
+        f = w.fns[hn]
+        eff = {}
+        fixed = True
+        jumps = set()
+        for bi, t in f.calls():
+            n = callee_name(t)
+            if n == VMP + 'pop':
+                eff[bi] = -1
+            elif n == VMP + 'push':
+                eff[bi] = 1
+            elif n == VMP + 'discard':
+                k = op_const(t['args'][1]) if len(t['args']) > 1 else None
+                if k is None or not isinstance(k.get('v'), int):
+                    fixed = False
+                else:
+                    eff[bi] = -k['v']
+            elif n in (VMP + 'peek', VMP + 'poke', VMP + 'read_byte', VMP + 'read_short', VMP + 'read_constant', VMP + 'read_string') or n in err_fns:
+                pass
+            elif n is not None and n.startswith(VMP) and w.fns.get(n) is not None:
+                # another VM routine that may move the stack itself (calls, frames, fibers ...): not a fixed-size handler
+                g = w.fns[n]
+                if any((callee_name(t2) or '') in (VMP + 'pop', VMP + 'push', VMP + 'discard') or 'Stack' in (callee_name(t2) or '') or 'frames' in str(t2.get('args')) for _, t2 in g.calls()):
+                    fixed = False
+            if strip_generics(n or '').endswith(('::offset', '::add', '::sub')) and 'ptr' in (n or ''):
+                jumps.add(bi)
+        # writes of self.ip mark the 'jump taken' paths
+        for bi in f.normal_blocks():
+            for s_ in f.blocks[bi]['s']:
+                d = s_.get('d') or {}
+                if d.get('p') and isinstance(d['p'][-1], dict) and d['p'][-1].get('n') == 'ip':
+                    jumps.add(bi)
+        if not fixed or not eff:
+            continue
+        errs = {bi for bi, t in f.calls() if callee_name(t) in err_fns}
+        for bi in f.normal_blocks():
+            for s_ in f.blocks[bi]['s']:
+                rr = s_.get('r', {})
+                if (s_.get('d') or {}).get('l') == 0 and rr.get('rv') == 'agg' and rr.get('v') == 'Err':
+                    errs.add(bi)
+        outcomes = {}      # jumped? -> set of net effects
+        seen = set()
+        todo = [(0, 0, False)]
+        steps = 0
+        while todo and steps < 20000:
+            steps += 1
+            b, net, jumped = todo.pop()
+            if (b, net, jumped) in seen or b in errs:
+                continue
+            seen.add((b, net, jumped))
+            net2 = net + eff.get(b, 0)
+            j2 = jumped or b in jumps
+            t = f.blocks[b]['t']
+            if t['t'] == 'return':
+                outcomes.setdefault(j2, set()).add(net2)
+                continue
+            for s_ in f.succs()[b]:
+                if s_ in f.normal_blocks() and abs(net2) < 8:
+                    todo.append((s_, net2, j2))
+        bad = {j: sorted(v) for j, v in outcomes.items() if len(v) > 1}
+        r.check(not bad, '%s / net stack effect' % hn.replace('yarel::', ''),
+                '%s changes the height of the operand stack by %s depending on the path taken inside the handler (%s): the compiler assumes one effect per instruction, so after '
+                'the other path every later local of the function is read from a neighbouring slot' % (hn.rsplit('::', 1)[-1], ' or '.join(str(x) for v in bad.values() for x in v),
+                                                                                                     'jump taken' if True in bad else 'no jump'), f.loc())
+
+
+def b14(rep, w):
+    """a constant operand names a slot of the chunk being written *now*: the index given to emit_constant_op was made for this chunk on the way -
+    by make_constant / identifier_constant in the same function, or by the resolution of a variable, or handed in as a parameter by a caller that
+    did. An index taken from a table that outlives one function's compilation (a memo of literal texts) belongs to some other function's chunk."""
+    r = rep.rule('B14', 'every constant index handed to emit_constant_op was produced for the current chunk in the same compilation step', floor=14)
+    OK = ('make_constant', 'identifier_constant', 'resolve_variable', 'resolve_local', 'resolve_upvalue', 'add_constant')
+    for f in sorted(w.yarel.fns.values(), key=lambda x: x.path):
+        org = None
+        k = 0
+        for bi, t in f.calls():
+            if callee_name(t) != P + 'emit_constant_op' or len(t['args']) < 3:
+                continue
+            k += 1
+            org = org or origins(f)
+            pl = op_place(t['args'][2])
+            roots = org.get(pl['l'], ()) if pl is not None else ()
+            bad = sorted({(q[0][2].rsplit('::', 1)[-1] if q[0][0] == 'call' else str(q[0])) for q in roots
+                          if not ((q[0][0] == 'call' and q[0][2].rsplit('::', 1)[-1] in OK) or q[0][0] == 'arg')})
+            r.check(bool(roots) and not bad, '%s / constant operand #%d comes from make_constant / identifier_constant' % (f.path.replace(P, ''), k),
+                    '%s emits a constant operand whose index comes from %s, not from adding the constant to the chunk being compiled: the slot may belong to another function\'s '
+                    'constant table (the instruction then loads whatever that slot holds here)' % (f.path, bad), f.loc(t.get('sp')))
 
 
 # ---- B5 -------------------------------------------------------------------------------------------------------------
